@@ -106,8 +106,12 @@ def scheduled_polls(sched, nops):
 
 
 def step_budget(scen):
+    """Hard cap on requests per run.  Its only job is to tell "finishes" from "spins": the expected conversation is
+    1 + sum(2 + polls) requests; the cap allows 8x that plus a whole-flash sweep with the longest scheduled busy phase."""
     nops = ops_expected(scen['fw']['len'])
-    return 64 + 8 * (nops + scheduled_polls(scen.get('sched', {}), nops))
+    sched = scen.get('sched', {})
+    longest = max([len(sched.get('default', [[], 0])[0])] + [len(e[0]) for e in sched.get('ops', {}).values()])
+    return 64 + 8 * (nops + scheduled_polls(sched, nops)) + 4 * VARIANTS[scen['variant']] * (3 + longest)
 
 
 def execute(scen, res, log):
